@@ -105,7 +105,11 @@ func VerifBuiltin() {
 	}
 	var alt []string
 	if len(f.args) > 0 {
-		alt = f.args[nondet.Choice("signature", len(f.args))]
+		if sig := nondet.ParamOr("SIG", -1); sig >= 0 {
+			alt = f.args[sig] // one signature pinned (the other needs a conversion the engine does not model)
+		} else {
+			alt = f.args[nondet.Choice("signature", len(f.args))]
+		}
 	}
 	names := []string{"a0", "a1", "a2", "a3", "a4", "a5", "a6", "a7", "a8", "a9", "a10"}
 	var args []value.Value
@@ -114,7 +118,7 @@ func VerifBuiltin() {
 	}
 	v, cerr := fn.Call(ctx, args...)
 	nondet.Observe("returned", cerr != nil)
-	if cerr == nil {
+	if cerr == nil && f.ret != "" {
 		nondet.Assert(v != nil, f.name+" returns neither a value nor an error")
 	}
 	nondet.Cover("returned")
